@@ -68,12 +68,23 @@ def rules_to_json(rules):
   return json.loads(json.dumps(out))
 
 
+def _dg(v):
+  """Digest of a caller-owned object; a model given as a FILE PATH is owned through the file's contents."""
+  if isinstance(v, str) and os.path.isfile(v):
+    with open(v, 'rb') as f:
+      return common.digest([v, f.read()])
+  return common.digest(v)
+
+
+_TMP = []
+
+
 class Watch:
   """Digest of caller-owned objects around one API call."""
 
   def __init__(self, ctx, api, **owned):
     self.ctx, self.api, self.owned = ctx, api, owned
-    self.before = {k: common.digest(v) for k, v in owned.items()}
+    self.before = {k: _dg(v) for k, v in owned.items()}
 
   def __enter__(self):
     return self
@@ -82,12 +93,23 @@ class Watch:
     self.ctx.count('api:' + self.api)
     for k, v in self.owned.items():
       self.ctx.count('digests')
-      if common.digest(v) != self.before[k]:
+      if _dg(v) != self.before[k]:
         self.ctx.violation('caller_object_mutated', {'api': self.api, 'object': k}, {'steps': self.ctx.steps})
     return False
 
 
 def run_case(ctx, case, rng):
+  try:
+    return _run_case(ctx, case, rng)
+  finally:
+    while _TMP:
+      try:
+        os.remove(_TMP.pop())
+      except OSError:
+        pass
+
+
+def _run_case(ctx, case, rng):
   fan = None
   if rng.random() < 0.2:
     # one tensor read by 3-5 operators, each with its own name-targeted static config: several QUANTIZE operators
@@ -117,6 +139,15 @@ def run_case(ctx, case, rng):
       pool[i] = rr
   # the API accepts a (mutable) bytearray: use one in half of the histories so that an in-place edit would be observable
   model = bytearray(spec.content) if rng.random() < 0.5 else bytes(spec.content)
+  if rng.random() < 0.15:
+    # ... and a path: the third form the constructor accepts; the file is caller-owned too
+    import tempfile
+    fd, path = tempfile.mkstemp(suffix='.tflite')
+    with os.fdopen(fd, 'wb') as f:
+      f.write(spec.content)
+    _TMP.append(path)
+    model = path
+    ctx.count('model_given_as_path')
   qs = [aeq.Quantizer(model), aeq.Quantizer(model)] if rng.random() < 0.6 else [aeq.Quantizer(model)]
   cur = [None] * len(qs)       # recipe JSON currently loaded per quantizer
   cals = []                    # shared statistics objects
